@@ -141,6 +141,15 @@ func Accept(l net.Listener) (net.Conn, error) {
 	return l.Accept()
 }
 
+// DialTimeout replaces net.DialTimeout in the code under test (see the instrumenter's rule): the limit given by the
+// code is a duration of the virtual clock; the real connect gets a minute.
+func DialTimeout(network, address string, d Duration) (net.Conn, error) {
+	if X == nil {
+		return net.DialTimeout(network, address, d)
+	}
+	return net.DialTimeout(network, address, 60*Second)
+}
+
 // CloseListener replaces l.Close() for a net.Listener in the code under test.
 func CloseListener(l net.Listener) error {
 	if X != nil {
